@@ -77,6 +77,7 @@ fn gens(tier: Tier) -> Vec<Gen> {
     vec![
         Gen { name: "matrix", count: tier.pick(96, total), exhaustive: tier == Tier::Thorough, run: run_matrix },
         Gen { name: "fast-paths", count: 12, exhaustive: true, run: run_fast_paths },
+        Gen { name: "unresponsive", count: 24, exhaustive: true, run: run_unresponsive },
     ]
 }
 
@@ -540,4 +541,25 @@ fn run_fast_paths(ctx: &mut Ctx, _rng: &mut Rng, index: u64) {
         }
     }
     ctx.nontrivial(format!("fast{index}").as_bytes());
+}
+
+/// no address accepts and at least one never answers: the call must wait for the pending
+/// attempts (connect timeout 1 s) and report what an attempt produced
+fn run_unresponsive(ctx: &mut Ctx, _rng: &mut Rng, index: u64) {
+    let shapes = [(1usize, 1usize), (2, 0), (0, 2), (2, 1), (1, 2), (2, 2)];
+    let (n6, n4) = shapes[(index % 6) as usize];
+    let v4_first = (index / 6) % 2 == 1;
+    let all_bh = index / 12 == 0;
+    let mk = |n: usize, first: bool| -> Vec<Beh> { (0..n).map(|i| if all_bh || (first && i == 0) { Beh::BlackHole } else { Beh::Refuse }).collect() };
+    let b6 = mk(n6, true);
+    let b4 = mk(n4, n6 == 0);
+    let out = run_case(&b6, &b4, v4_first, Deadline::None, 1_000);
+    ctx.count("no_acceptor_with_blackhole", 1);
+    if let Some(why) = out.inconclusive {
+        ctx.inconclusive(why);
+    } else if let Some((s, d)) = out.violation {
+        ctx.violation(s, d);
+    }
+    ctx.nontrivial(format!("unresp{index}").as_bytes());
+    ctx.sample(|| json!({"gen": "unresponsive", "v6": format!("{b6:?}"), "v4": format!("{b4:?}"), "elapsed_ms": out.elapsed.as_millis() as u64}));
 }
